@@ -141,3 +141,44 @@ UNIT = dict(
     ] + ARMS + [
     ],
 )
+
+
+def scan_run_header(core):
+    """C13 / C14: the arms of VM::run are verified one by one with `ip` and `line` as parameters; this scan pins the few lines of
+    the dispatch loop around them: ip is the current frame's ip, the opcode and the line are read at that ip, neither is
+    rebound inside run, and the loop tail advances ip by exactly one (past the last operand byte each arm leaves it on)."""
+    import os, re
+    path = os.path.join(core.REPO, "src/vm/interpreter.rs")
+    if not os.path.exists(path):
+        raise core.Undecided("lost anchor: src/vm/interpreter.rs")
+    src = open(path).read()
+    m = re.search(r"pub fn run\(&mut self\) -> Result<\(\), RTError> \{", src)
+    if not m:
+        raise core.Undecided("lost anchor: VM::run")
+    # body of run: up to the next method at the same indentation
+    end = src.find("\n    fn ", m.end())
+    body = src[m.end():end if end > 0 else len(src)]
+    hm = re.search(r"match op \{", body)
+    if not hm:
+        raise core.Undecided("lost anchor: `match op {` in VM::run")
+    head = re.sub(r"//[^\n]*", "", body[:hm.start()])
+    head = re.sub(r"#\[cfg\(feature = \"debug_trace_execution\"\)\]\s*\{[^}]*\}", "", head)
+    norm = " ".join(head.split())
+    want = ("while self.current_frame().ip < self.current_frame().instructions().len() { let ip = self.current_frame().ip; "
+            "let instructions = self.current_frame().instructions().clone(); let op = Opcode::from(instructions.code[ip]); let line = instructions.lines[ip];")
+    out = []
+    out.append(("run-header", "VM::run fetches `ip` from the current frame, the opcode from code[ip] and the line from lines[ip], in a loop bounded by the instruction count",
+                norm == want, "the loop header of VM::run reads: %s" % norm[:300]))
+    rebinds = len(re.findall(r"\blet\s+(?:mut\s+)?(?:line|ip|op)\b", body))
+    assigns = len(re.findall(r"(?<![.\w])(?<!let )(?<!let mut )(?:line|ip|op)\s*(?:\+|-)?=(?!=)", body))
+    out.append(("run-no-rebinding", "`ip`, `op` and `line` are bound once per iteration and never reassigned inside VM::run", rebinds == 3 and assigns == 0,
+                "%d bindings (expected 3) and %d assignments (expected 0) of ip / op / line inside VM::run" % (rebinds, assigns)))
+    tail = " ".join(re.sub(r"//[^\n]*", "", body[body.rfind("Opcode::Invalid =>"):]).split())
+    out.append(("run-tail", "after the dispatch the loop advances the current frame's ip by exactly one, then run returns Ok(())",
+                bool(re.search(r"\} \} self\.current_frame\(\)\.ip \+= 1; \} Ok\(\(\)\) \}$", tail)), "the loop tail of VM::run reads: ...%s" % tail[-160:]))
+    return out
+
+
+scan_run_header.props = ["C13", "C14", "C08"]
+scan_run_header.source = "src/vm/interpreter.rs"
+UNIT["pyscans"] = UNIT.get("pyscans", []) + [scan_run_header]
